@@ -31,8 +31,8 @@ TECHNIQUE = "explicit-state BFS over run-folder states (transition = real map(fi
 RULE = ("pipelines {elementwise chain, 2-D outer product chain, tuple-output zip, internal axis + partial reduction, partial reduction over the other axis, two zipped roots then an outer product with another axis of another size (quick: learners and rejections only), independent "
         "non-mapped function} x storage {file_array, dict+persist} x selectors = every int in [-n,n) and every slice over start/stop in {None,-n..n} x step in {None,+-1,+-2} "
         "with a non-empty selection (deduplicated to distinct index sequences, two spellings each); BFS states = sets of present elements; for two independent axes the "
-        "product of their selectors. Learners: fixed_indices None/each selector class (for two pipelines also with resources_scope=element: one learner per element), split_independent_axes F/T, return_output F/T, all unit orders within a generation "
-        "(<= 4 units: all permutations; more: identity, reversal and all rotations). Rejections: reduced axis, unknown axis, out-of-range int; and with output_names = the outputs of one function: an axis the selected sub-pipeline does not have (reject) / an axis that only a function outside it reduces (accept, exactly the selected calls). Part E: one piece (an int / a slice on the first axis) of five pipelines through map_async (virtual loop, deferred executor, default schedule) against the same piece through map. Part D: for three pipelines x {shared_memory_dict, file_array} the two pieces of the first axis, in both orders, on a REAL process pool (one free-running schedule each)")
+        "product of their selectors. Learners: fixed_indices None/each selector class (for two pipelines also with resources_scope=element: one learner per element), split_independent_axes F/T, return_output F/T, all unit orders within a generation; with split_independent_axes the learners of EACH key run alone in a fresh folder (precisely that key's elements) "
+        "(<= 4 units: all permutations; more: identity, reversal and all rotations). Rejections: reduced axis, unknown axis, out-of-range int, each through map AND through create_learners (accepted = learners created and all of them ran); and with output_names = the outputs of one function: an axis the selected sub-pipeline does not have (reject) / an axis that only a function outside it reduces (accept, exactly the selected calls). Part E: one piece (an int / a slice on the first axis) of five pipelines through map_async (virtual loop, deferred executor, default schedule) against the same piece through map. Part D: for three pipelines x {shared_memory_dict, file_array} the two pieces of the first axis, in both orders, on a REAL process pool (one free-running schedule each)")
 ASSUMPTIONS = ["reference = MapSpec denotation (vmc/gen_map.py) restricted to the selected external indices",
                "learners are executed through learner.ask/tell with the learner's own function, as adaptive's simple runner does, but in every order",
                "learner runs use file_array storage (memory storages are only persisted by run_map itself)"]
@@ -527,6 +527,57 @@ def run_learners(cfg, order_choice):
         shutil.rmtree(base, ignore_errors=True)
 
 
+def check_single_keys(cfg):
+    """split_independent_axes=True: the learners filed under ONE key, run alone in a fresh folder, compute precisely the
+    elements that key selects (running all keys together cannot show a key whose learners cover more than their share:
+    elements that are already stored are skipped)"""
+    from pipefunc.map.adaptive import create_learners
+    spec = PIPES[cfg["pipe"]]
+    out = []
+    inputs = gen_map.make_inputs(spec, "list")
+    _, calls = gen_map.ref_map(spec, inputs)
+    nkeys = None
+    k = 0
+    while nkeys is None or k < nkeys:
+        base = boot.mkscratch("c06k-")
+        try:
+            p = gen_map.build(spec)
+            terms.LOG.clear()
+            with contextlib.redirect_stdout(io.StringIO()), warnings.catch_warnings():
+                warnings.simplefilter("ignore")
+                ld = create_learners(p, dict(inputs), os.path.join(base, "run"), internal_shapes=gen_map.internal_shapes_arg(spec),
+                                     storage="file_array", return_output=cfg["ret"], cleanup=True, split_independent_axes=True)
+            keys = list(ld)
+            nkeys = len(keys)
+            key = keys[k]
+            fx = {ai.axis: int(ai.idx) for ai in (key or ())}
+            for gen in ld[key]:
+                for lp in gen:
+                    pts, _ = lp.learner.ask(len(lp.learner.sequence))
+                    for pt in pts:
+                        with contextlib.redirect_stdout(io.StringIO()):
+                            lp.learner.tell(pt, lp.learner.function(pt))
+            log = list(terms.LOG)
+            want = []
+            for fn in spec["funcs"]:
+                if fn["ms"]:
+                    for idx in sorted(selected(spec, fn, fx)):
+                        want.append((fn["name"], calls[fn["name"]][linear(spec, fn, idx)]))
+                else:
+                    want.append((fn["name"], calls[fn["name"]][0]))
+            if sorted(log) != sorted(want):
+                out.append(({"kind": "single-key-call-log", "pipe": cfg["pipe"], "part": "B", "more": len(log) > len(want)},
+                            f"{cfg}: the learners of key {fx} alone called {len(log)} elements, the key selects {len(want)}: {sorted(log)[:6]}"))
+                break
+        except Exception as e:  # noqa: BLE001
+            out.append((findings.exc_sig(e, pipe=cfg["pipe"], part="B", phase="single-key"), f"{cfg}: learners of key #{k} alone raised {type(e).__name__}: {str(e)[:120]}"))
+            break
+        finally:
+            shutil.rmtree(base, ignore_errors=True)
+        k += 1
+    return out, (nkeys or 0)
+
+
 def learner_orders(cfg):
     """all per-generation order choices (product over generations)"""
     from pipefunc.map.adaptive import create_learners
@@ -635,6 +686,33 @@ def check_rejection(cfg, fixed, why):
         shutil.rmtree(base, ignore_errors=True)
 
 
+def check_rejection_learners(cfg, fixed, why):
+    """the same invalid requests through create_learners: accepted = the learners are created AND all of them run through"""
+    from pipefunc.map.adaptive import create_learners
+    spec = PIPES[cfg["pipe"]]
+    base = boot.mkscratch("c06q-")
+    try:
+        terms.LOG.clear()
+        try:
+            p = gen_map.build(spec)
+            with contextlib.redirect_stdout(io.StringIO()), warnings.catch_warnings():
+                warnings.simplefilter("ignore")
+                ld = create_learners(p, gen_map.make_inputs(spec, "list"), os.path.join(base, "run"), internal_shapes=gen_map.internal_shapes_arg(spec),
+                                     storage="file_array", fixed_indices={a: sel_from(s_) for a, s_ in fixed.items()})
+                for gens in ld.values():
+                    for gen in gens:
+                        for lp in gen:
+                            pts, _ = lp.learner.ask(len(lp.learner.sequence))
+                            for pt in pts:
+                                lp.learner.tell(pt, lp.learner.function(pt))
+        except Exception:  # noqa: BLE001
+            return []
+        return [({"kind": "accepted-invalid-fixed-indices", "why": why, "pipe": cfg["pipe"], "part": "C", "via": "create_learners"},
+                 f"{cfg}: create_learners(fixed_indices={fixed}) ({why}) was accepted and its learners ran; calls {list(terms.LOG)[:3]}")]
+    finally:
+        shutil.rmtree(base, ignore_errors=True)
+
+
 # ------------------------------------------------------------------------------------------------
 def plan(tier, seed):
     units = []
@@ -667,6 +745,7 @@ def plan(tier, seed):
                     units.append(("B-learners-all-unit-orders", ("B", cfg)))
                     if not ret and pipe in ("chain", "outer2d"):
                         units.append(("B-learners-all-unit-orders", ("B", {**cfg, "element_scope": True})))
+        units.append(("B-learners-one-key-alone", ("B1", {"pipe": pipe, "ret": False})))
     for pipe in ("chain", "outer2d", "tuple-zip", "internal-partial", "reduce-other-axis"):
         for sel in (1, sel_json(slice(None, None, 2))):
             units.append(("E-one-piece-through-map_async", ("E", {"pipe": pipe, "sel": sel})))
@@ -717,6 +796,16 @@ def run_unit(unit):
         acc.stratum("B-executions", n)
         if cfg["split"] and not cfg["ret"]:
             acc.sample({"part": "B", "cfg": cfg, "orders_per_generation": counts})
+    elif kind == "B1":
+        _, cfg = unit
+        vs, nkeys = check_single_keys(cfg)
+        acc.case(hash(("B1", str(cfg))), n=max(1, nkeys))
+        acc.states += nkeys
+        acc.transitions += nkeys
+        acc.traces += nkeys
+        acc.stratum("B-single-key-runs", nkeys)
+        for sig, text in vs:
+            acc.violation(sig, {"part": "B1", "cfg": cfg}, text)
     elif kind == "E":
         _, cfg = unit
         acc.case(hash(str(cfg)))
@@ -745,6 +834,10 @@ def run_unit(unit):
             acc.stratum("C-" + why)
             for sig, text in check_rejection(cfg, fixed, why):
                 acc.violation(sig, {"part": "C", "cfg": cfg, "fixed": fixed, "why": why}, text)
+            acc.case(hash((cfg["pipe"], str(fixed), "learners")))
+            acc.traces += 1
+            for sig, text in check_rejection_learners(cfg, fixed, why):
+                acc.violation(sig, {"part": "C", "cfg": cfg, "fixed": fixed, "why": why, "via": "create_learners"}, text)
         for k, (outs, fixed, expect, why, sub) in enumerate(output_name_cases(cfg["pipe"])):
             acc.case(hash((cfg["pipe"], str(outs), str(fixed), "output_names")))
             acc.states += 1
@@ -763,6 +856,8 @@ def replay(art):
     if art["part"] == "C" and "output_names_case" in art:
         outs, fixed, expect, why, sub = output_name_cases(art["cfg"]["pipe"])[art["output_names_case"]]
         return [s for s, _ in check_output_names(art["cfg"], outs, fixed, expect, why, sub)]
+    if art["part"] == "B1":
+        return [s for s, _ in check_single_keys(art["cfg"])[0]]
     if art["part"] == "E":
         return [s for s, _ in check_async_piece(art["cfg"])]
     if art["part"] == "D":
@@ -770,4 +865,6 @@ def replay(art):
     if art["part"] == "B":
         vs, _ = run_learners(art["cfg"], art["order"])
         return [s for s, _ in vs]
+    if art.get("via") == "create_learners":
+        return [s for s, _ in check_rejection_learners(art["cfg"], art["fixed"], art["why"])]
     return [s for s, _ in check_rejection(art["cfg"], art["fixed"], art["why"])]
